@@ -73,14 +73,37 @@ structure Result where
 deriving Repr
 
 /-! ### DecoratedFunction -/
-def contains (s needle : String) : Bool := decide ((s.splitOn needle).length > 1)
+/-! substring search written by structural recursion over character lists, so that the kernel can evaluate the
+    source-text predicates on concrete sources (negation witnesses by `decide`) -/
+def isPrefixL : List Char → List Char → Bool
+  | [], _ => true
+  | _ :: _, [] => false
+  | a :: as, b :: bs => a == b && isPrefixL as bs
+/-- Python `needle in s` -/
+def isInfixL (n : List Char) : List Char → Bool
+  | [] => n.isEmpty
+  | c :: cs => isPrefixL n (c :: cs) || isInfixL n cs
+/-- Python `s.split(sep)[0]`: the text before the first occurrence of `sep` -/
+def beforeFirstL (sep : List Char) : List Char → List Char
+  | [] => []
+  | c :: cs => if isPrefixL sep (c :: cs) then [] else c :: beforeFirstL sep cs
+/-- number of positions at which `n` occurs (= `len(re.findall(n, s))` for a one-character pattern) -/
+def countOccL (n : List Char) : List Char → Nat
+  | [] => 0
+  | c :: cs => (if isPrefixL n (c :: cs) then 1 else 0) + countOccL n cs
+
+def contains (s needle : String) : Bool := isInfixL needle.toList s.toList
+def startsWithS (s p : String) : Bool := isPrefixL p.toList s.toList
+def endsWithS (s p : String) : Bool := isPrefixL p.toList.reverse s.toList.reverse
 def Fn.wantsArgs (f : Fn) : Bool := contains f.source argsNeedle
 def Fn.isStatic (f : Fn) : Bool := contains f.source staticNeedle
 def Fn.isSetter (f : Fn) : Bool := contains f.source (setterPrefix ++ f.name ++ setterSuffix)
 def Fn.isPedantic (f : Fn) : Bool := pedanticNeedles.any (contains f.source)
-def Fn.numDecorators (f : Fn) : Nat := (((f.source.splitOn decoratorSplit).headD "").splitOn decoratorMark).length - 1
+def Fn.numDecorators (f : Fn) : Nat := countOccL decoratorMark.toList (beforeFirstL decoratorSplit.toList f.source.toList)
+def Fn.startsDunder (f : Fn) : Bool := startsWithS f.name "__"
+def Fn.endsDunder (f : Fn) : Bool := endsWithS f.name "__"
 def Fn.shouldHaveKwargs (f : Fn) : Bool :=
-  PedVerif.Gen.CallTables.shouldHaveKwargs f.isSetter f.wantsArgs (f.name.startsWith "__") (f.name.endsWith "__") (requireKwargsDunders.contains f.name)
+  PedVerif.Gen.CallTables.shouldHaveKwargs f.isSetter f.wantsArgs f.startsDunder f.endsDunder (requireKwargsDunders.contains f.name)
 def Fn.strips (f : Fn) : Bool := stripsFirst f.firstIsSelf f.isStatic (usesMultiple f.numDecorators f.isPedantic)
 def Fn.argsWithoutSelf {α} (f : Fn) (args : List α) : List α := if f.strips then args.drop stripFrom else args
 
@@ -239,31 +262,36 @@ def retCheck (env : Env) (orc : Nat → Val → Raw) (f : Fn) (args : List Val) 
         | some c => ⟨c, true, fp, fk⟩
         | none => ⟨.ret, true, fp, fk⟩
 
+/-- does the wrapper invoke the function with keyword arguments only (`self.func.func(**self.kwargs)`) -/
+def Fn.kwOnlyInvocation (f : Fn) : Bool := f.mode == .pedantic && kwargsOnlyInvocation f.isStatic f.isBound
+def fwdPosOf (f : Fn) (args : List Val) : List Nat := if f.kwOnlyInvocation then [] else List.range args.length
+
+/-- `_get_return_value` / `func(*args, **kwargs)` followed by the return check -/
+def invoke (env : Env) (orc : Nat → Val → Raw) (f : Fn) (args : List Val) (kw : List (NameId × Val)) (body : BodyOut) : Result :=
+  let fp := fwdPosOf f args
+  let fk := kw.map (·.1)
+  if !f.binds fp.length fk then ⟨.bindTypeError, false, fp, fk⟩ else
+  match f.mode with
+  | .requireKwargs => (match body with
+      | .raises e => ⟨.bodyExc e, true, fp, fk⟩
+      | .ret _ => ⟨.ret, true, fp, fk⟩)
+  | .pedantic => retCheck env orc f args body fp fk
+
 /-- one call of the decorated callable: `args` / `kw` are what the wrapper receives -/
 def runCall (env : Env) (orc : Nat → Val → Raw) (f : Fn) (args : List Val) (kw : List (NameId × Val)) (body : BodyOut) : Result :=
   -- FunctionCall.__init__: `self.args[0] if is_instance_method`
   if f.firstIsSelf && args.isEmpty then ⟨.escape "IndexError", false, [], []⟩ else
   -- assert_uses_kwargs
   if f.shouldHaveKwargs && !(f.argsWithoutSelf args).isEmpty then ⟨.pedCallWithArgs, false, [], []⟩ else
-  let kwOnly := f.mode == .pedantic && kwargsOnlyInvocation f.isStatic f.isBound
-  let fp := if kwOnly then [] else List.range args.length
-  let fk := kw.map (·.1)
-  let invoke : Unit → Result := fun _ =>
-    if !f.binds fp.length fk then ⟨.bindTypeError, false, fp, fk⟩ else
-    match f.mode with
-    | .requireKwargs => (match body with
-        | .raises e => ⟨.bodyExc e, true, fp, fk⟩
-        | .ret _ => ⟨.ret, true, fp, fk⟩)
-    | .pedantic => retCheck env orc f args body fp fk
   match f.mode with
-  | .requireKwargs => invoke ()
+  | .requireKwargs => invoke env orc f args kw body
   | .pedantic =>
     if argsCheckedBeforeBody then
       (match checkArguments env orc f args kw with
        | some c => ⟨c, false, [], []⟩
-       | none => invoke ())
+       | none => invoke env orc f args kw body)
     else
-      (let r := invoke ()
+      (let r := invoke env orc f args kw body
        if r.bodyRan then (match checkArguments env orc f args kw with | some c => { r with caller := c } | none => r) else r)
 
 end PedVerif.Call
